@@ -152,6 +152,11 @@ impl Server {
         }
     }
 
+    /// Returns true if the configured [RequestFilter] allows this request from this source.
+    pub(crate) fn allows(&self, request: &RequestSpecific, from: SocketAddrV4) -> bool {
+        self.filter.allow_request(request, from)
+    }
+
     /// Returns an optional response or an error for a request.
     ///
     /// Passed to the Rpc to send back to the requester.
